@@ -36,7 +36,16 @@ def _run_one(job):
     t0 = time.time()
     try:
         shutil.copytree(os.path.join(repo, 'diskcache'), os.path.join(d, 'diskcache'))
-        if fn == 'PATCH':
+        if fn == 'UNPARSE':
+            # whole-package normalisation: comments dropped, layout, quoting, parentheses and line numbers changed
+            import ast as _ast
+            import glob as _g
+            for fp in _g.glob(os.path.join(d, 'diskcache', '*.py')):
+                with open(fp) as f:
+                    fs = f.read()
+                with open(fp, 'w') as f:
+                    f.write(_ast.unparse(_ast.parse(fs)) + '\n')
+        elif fn == 'PATCH':
             import subprocess
             r = subprocess.run(['patch', '-p1', '-s', '-d', d, '-i', old], capture_output=True, text=True)
             if r.returncode != 0:
@@ -124,6 +133,7 @@ def run(rule_filter=None, jobs=None, repo=None, quiet_rules=None):
     for pf in sorted(glob.glob(os.path.join(HERE, 'refactors', '*', 'patch.diff'))):
         work.append(('quiet', 'refactor:' + os.path.basename(os.path.dirname(pf)), 'PATCH', pf, None, qrules, baseline,
                      repo, False))
+    work.append(('quiet', 'normalise:ast.unparse-whole-package', 'UNPARSE', None, None, qrules, baseline, repo, False))
     for m in QUIET:
         mid, fn, old, new = m[:4]
         work.append(('quiet', mid, fn, old, new, qrules, baseline, repo, 'helper' in mid or (len(m) > 4 and m[4] == 'all')))
